@@ -111,6 +111,7 @@ func runC02(c *run.Ctx, s *kit.Summary) {
 	attackctl.RunCommon("C03", c, s, runChildren)
 	if c.Replay == "" {
 		e2eCap(c, s, kit.NewRng(c.Seed+11))
+		drainScenario(c, s, kit.NewRng(c.Seed+13))
 		attackctl.MaxConnsRuns(c, s, kit.NewRng(c.Seed+12))
 	}
 }
